@@ -105,6 +105,52 @@ def h_traverse(c, n, entry, cb):
     c.reachable("nontrivial_subtree", len(sub) > 1 and len(sub) < n)
 
 
+def h_after_edit(c, n, how):
+    """The traversal follows the tree AS IT IS NOW: traverse once, change the topology (in place through a node handle, or by
+    re-rooting without sorting a tree that was already traversed), traverse again; the second result must be the structural
+    recursion over the edited parent table."""
+    from swcgeom.core import Tree, redirect_tree
+
+    pid = topology(c, n, "any")
+    E0, E, L, G = c.uf("E0", 1), c.uf("E", 2), c.uf("L", 3), c.uf("G", 1)
+
+    def run(t, start):
+        seen = []
+
+        def enter(node, pv):
+            i = int(node.id)
+            seen.append(i)
+            return E0(i) if pv is None else E(i, pv)
+
+        def leave(node, vals):
+            vals = list(vals)
+            return L(int(node.id), total([G(x) for x in vals]) if vals else 0, len(vals))
+
+        return t.traverse(root=start, enter=enter, leave=leave), seen
+
+    t = Tree(n, pid=np.array(pid, dtype=np.int32))
+    first, _ = run(t, 0)
+    c.prove_eq("first.structural_recursion", first, _reference(c, pid, 0, E0, E, L, G, True, True))
+    if how == "setter":
+        # move node k (not the root) under another node j that is not in its own subtree
+        k = 1 + c.choice("k", n - 1)
+        cands = [j for j in range(n) if j not in descendants(pid, k)]
+        j = cands[c.choice("j", len(cands))]
+        t.node(k).pid = j
+        new_pid = list(pid)
+        new_pid[k] = j
+        t2, start = t, 0
+    else:
+        k = c.choice("k", n)
+        t2 = redirect_tree(t, k, sort=False)
+        new_pid = [int(v) for v in t2.pid()]
+        start = k
+    second, seen = run(t2, start)
+    c.prove("second.visits_the_edited_subtree", sorted(seen) == descendants(new_pid, start), f"{sorted(seen)} vs {descendants(new_pid, start)}")
+    c.prove_eq("second.structural_recursion", second, _reference(c, new_pid, start, E0, E, L, G, True, True))
+    c.reachable("topology_changed", new_pid != pid)
+
+
 def d_depth(tier):
     """Auxiliary, NOT solver-based: a concrete chain of 10^5 nodes under the default recursion limit."""
     import time
@@ -142,10 +188,12 @@ def _params(n):
             (("topology", "both"), ("tree", "both"), ("node", "both"), ("topology", "enter"), ("node", "enter"), ("tree", "leave"))]
 
 
-REACH = {"traverse": ["nontrivial_subtree"]}
+REACH = {"traverse": ["nontrivial_subtree"], "after_edit": ["topology_changed"]}
 HARNESSES = [
     H("traverse", h_traverse, quick=_params(4), thorough=_params(5) + [dict(n=6, entry="topology", cb="both"), dict(n=6, entry="node", cb="both")], functions=FUNCTIONS,
       bounds="every parent table with root 0 on n<=4 (quick) / 5, and 6 for two entry points (thorough) nodes; every start node; callbacks uninterpreted; entry points swc_utils.traverse / Tree.traverse(root=) / Tree.Node.traverse; enter-only, leave-only, both",
       validate=True),
+    H("after_edit", h_after_edit, quick=[dict(n=k, how=h) for k in (2, 3, 4) for h in ("setter", "redirect")], thorough=[dict(n=5, how=h) for h in ("setter", "redirect")], functions=FUNCTIONS + ["swcgeom.core.node.Node.pid (setter)", "swcgeom.core.tree_utils.redirect_tree"],
+      bounds="every tree with n<=4/5 nodes, traversed, then every re-parenting of one node through its handle / every unsorted re-rooting, then traversed again"),
     Direct("depth", d_depth, functions=FUNCTIONS, bounds="auxiliary concrete run: one chain of 10^5 nodes (not a solver claim)"),
 ]
